@@ -7,6 +7,8 @@
   aliases), or for every single accepted operation on any state that satisfies the invariant.
 -/
 import DymVerif.Lemmas.DymNSCfg
+import DymVerif.Lemmas.DymNSLedgerAlias
+import DymVerif.Lemmas.GenEqDymNS
 namespace DymVerif.C17
 open DymVerif DymVerif.DymNS
 
@@ -221,6 +223,28 @@ theorem sale_exact_accept {s s' : State} {a : Acct} {pfx : Bool} {id : Nat} {bo 
       getName s' bo.asset = some (cleared bo.buyer d.expireAt) ∧ AMap.get s'.bos id = none ∧
       ∀ x, balOf s' x = balOf s x + (if x = a then bo.offer else 0) :=
   acceptNameBO_ledger hg hna h
+
+/-- **refund_full / sale_exact for aliases (completion)** -/
+theorem sale_exact_complete_alias {s s' : State} {a : Acct} {l : AliasId} (h : completeAliasSOMsg s a l = .ok s') :
+    ∃ so b, AMap.get s.aliasSO l = some so ∧ so.bid = some b ∧ so.finished s.now = true ∧ AMap.get s'.aliasSO l = none ∧
+      (if (reserved s.p l || !s.p.tradeAlias) = true
+       then s'.al = s.al ∧ ∀ x, balOf s' x = balOf s x + refundTo (some b) x
+       else ∃ src r, AMap.get s.al.aliasTo l = some src ∧ AMap.get s.al.rollapps src = some r ∧
+            AMap.get s'.al.aliasTo l = some b.dst ∧
+            ∀ x, balOf s' x = balOf s x + (if x = r.owner then b.price else 0)) :=
+  completeAliasSOMsg_ledger h
+
+/-- **refund_full (outbid) / sale_exact (sell price reached) for aliases** -/
+theorem refund_full_outbid_alias {s s' : State} {a : Acct} {l : AliasId} {offer : Nat} {dst : Chain} {so : SellOrder}
+    (h : purchaseAlias s a l offer dst = .ok s') (hso : AMap.get s.aliasSO l = some so) :
+    if ({ so with bid := some ⟨a, offer, dst⟩ } : SellOrder).finished s.now = true
+    then ∃ src r, AMap.get s.al.aliasTo l = some src ∧ AMap.get s.al.rollapps src = some r ∧
+          AMap.get s'.al.aliasTo l = some dst ∧ AMap.get s'.aliasSO l = none ∧
+          ∀ x, balOf s' x + (if x = a then offer else 0) =
+            balOf s x + refundTo so.bid x + (if x = r.owner then offer else 0)
+    else s'.al = s.al ∧ AMap.get s'.aliasSO l = some { so with bid := some ⟨a, offer, dst⟩ } ∧
+          ∀ x, balOf s' x + (if x = a then offer else 0) = balOf s x + refundTo so.bid x :=
+  purchaseAlias_ledger h hso
 
 /-! ## resolve_agree
 
